@@ -156,7 +156,7 @@ pub fn gen_reg(r: &mut Rng, rp: u8) -> RegSpec {
         prf: None,
         prf_hashed: None,
         misc: if r.bool() { r.next_u64() } else { 0 },
-        via_json: if r.chance(1, 8) { 1 } else { 0 },
+        via_json: if r.chance(1, 8) { *r.pick(&[1u8, 4]) } else { 0 },
     }
 }
 
@@ -170,6 +170,7 @@ pub fn gen_auth(r: &mut Rng, rp: u8) -> AuthSpec {
         prf: None,
         prf_hashed: None,
         misc: if r.bool() { r.next_u64() } else { 0 },
+        via_json: if r.chance(1, 8) { *r.pick(&[1u8, 4]) } else { 0 },
     }
 }
 
@@ -190,6 +191,7 @@ pub fn gen_mc(r: &mut Rng, rp_id: &str) -> McSpec {
         via_trait: false,
         hmac_secret_mc: false,
         names: if r.chance(1, 6) { r.range(1, 2) as u8 } else { 0 },
+        via_cbor: if r.chance(1, 6) { r.range(1, 2) as u8 } else { 0 },
     }
 }
 
@@ -205,6 +207,7 @@ pub fn gen_ga(r: &mut Rng, rp_id: &str) -> GaSpec {
         pin_empty: false,
         prf: None,
         via_trait: false,
+        via_cbor: if r.chance(1, 6) { r.range(1, 2) as u8 } else { 0 },
     }
 }
 
@@ -233,7 +236,7 @@ pub fn gen_prelude(r: &mut Rng, n: usize, counters: Option<bool>) -> Vec<PreCred
                 _ => Some(true),
             },
             hmac_len: if r.chance(1, 6) { *r.pick(&[48u8, 64]) } else { 0 },
-            key_layout: if r.chance(1, 8) { r.range(1, 3) as u8 } else { 0 },
+            key_layout: if r.chance(1, 8) { *r.pick(&[1u8, 2, 3, 5]) } else { 0 },
         })
         .collect()
 }
